@@ -101,6 +101,7 @@ def run_bn(cfg, hist):
             R.weight.copy_(t.from_numpy(gam.astype(dt))); R.bias.copy_(t.from_numpy(bet.astype(dt)))
     batches = bn_batches(rank)
     viols = []
+    pending = []
     def buffers():
         if L.running_mean is None: return None
         return np.asarray(L.running_mean.data, dtype=np.float64).copy(), np.asarray(L.running_var.data, dtype=np.float64).copy()
@@ -113,7 +114,10 @@ def run_bn(cfg, hist):
             elif e == "E": L.eval(); R.eval()
             else:
                 xb = batches[e].astype(dt)
-                y = L(sg.Tensor(xb.copy()))
+                xt = sg.Tensor(xb.copy(), requires_grad=True)
+                y = L(xt)
+                use_running = (not L.training) and cfg["track"]
+                pending.append((xt, y, xb, use_running, None if not use_running else np.asarray(L.running_var.data, dtype=np.float64).copy(), prefix))
                 if y.dtype != dt: v("batchnorm:output-dtype", f"cfg {cfg} after {prefix}: {dt} input gives {y.dtype} output")
                 with t.no_grad():
                     yr = R(t.from_numpy(xb.copy())).numpy()
@@ -147,6 +151,31 @@ def run_bn(cfg, hist):
         elif after is not None:
             v("batchnorm:buffers-present-without-tracking", f"after {prefix}")
         if viols: return viols, i + 1
+    # delayed backward: every forward of the history is differentiated only now, after all later calls have run -
+    # what a forward saved for its backward must not be disturbed by later forwards of the same layer
+    TF = t.nn.functional
+    for (xt, y, xb, use_running, rv_snap, prefix) in pending:
+        g = np.cos(np.arange(xb.size) * 0.9 + 0.3).reshape(xb.shape).astype(dt)
+        try:
+            y.backward(sg.Tensor(g.copy()))
+        except Exception as ex:
+            viols.append(("batchnorm:delayed-backward-raised", f"{type(ex).__name__}: {str(ex)[:80]}", prefix)); break
+        shp = (1, C) + (1,) * (xb.ndim - 2)
+        gam = np.array([1.5, -0.5]).reshape(shp) if cfg["affine"] else 1.0
+        if use_running:
+            exp = g.astype(np.float64) * gam / np.sqrt(rv_snap.reshape(shp) + cfg["eps"])
+        else:
+            xr = t.tensor(xb.astype(np.float64), requires_grad=True)
+            w = t.tensor([1.5, -0.5], dtype=t.float64) if cfg["affine"] else None
+            b = t.tensor([0.25, 2.0], dtype=t.float64) if cfg["affine"] else None
+            TF.batch_norm(xr, None, None, w, b, training=True, eps=cfg["eps"]).backward(t.from_numpy(g.astype(np.float64)))
+            exp = xr.grad.numpy()
+        got = np.asarray(xt.grad.data, dtype=np.float64)
+        tol = (1e-8, 1e-9) if dt == np.float64 else (2e-4, 2e-5)
+        if got.shape != exp.shape or not np.allclose(got, exp, rtol=tol[0], atol=tol[1]):
+            viols.append(("batchnorm:delayed-backward", f"cfg {cfg}: the input gradient of the forward issued after {prefix}, taken after the whole history "
+                          f"{hist}, is off by {np.max(np.abs(got - exp)):.3g} (later calls disturbed what that forward saved)", list(hist)))
+            break
     return viols, len(hist)
 
 # ----------------------------------------------------------------------------- driver
@@ -192,7 +221,8 @@ def run(tier, seed):
                    f"affine x track_running_stats x input rank 2/3/4) x ALL {4 ** bd} histories of length {bd} over {{train, eval, forward(A: 2 "
                    "samples), forward(B: 3 samples)}} in lock-step with torch.nn.BatchNorm1d/2d (float64; float32 layers one level shallower, "
                    "incl. dtype of outputs and buffers): output, running_mean, "
-                   "running_var, num_batches_tracked after every event; states = (configuration, history prefix) pairs"}
+                   "running_var, num_batches_tracked after every event; after the history every forward is back-propagated (delayed backward) "
+                   "and its input gradient compared with the closed form / torch autograd; states = (configuration, history prefix) pairs"}
     return {"level": "model_checking", "violations": [b[1] for b in best.values()], "coverage": cov,
             "assumptions": ["NumPy's generator distribution is trusted; each element must be a function of its own draw",
                             "torch.nn.BatchNorm (float64) is the documented exponential / cumulative moving-average rule"]}
